@@ -24,7 +24,7 @@ RULE = ("(a) exhaustive: every condition tree with <= N connective nodes (N=2 qu
         "0.35 per node so leaves sit under 0-4 negations, all six comparison operators, contains/in_ both directions, "
         "boolean calls and attributes, both predicate kinds, HasType, root wrapped in 1-3 negations spelled not_ or ~; "
         "(c) random depth<=2 trees of comparisons between PARTIALLY ordered attribute values (frozensets, floats with NaN), "
-        "where the complement of a<b is not a>=b, and of a predicate whose arguments are attribute VALUES that may be 0; (d) Predicate terms (plain and negated) written inside the block of the query (`with an(T(From(d))) as q: ...`), which add themselves to it. "
+        "where the complement of a<b is not a>=b, and of a predicate whose arguments are attribute VALUES that may be 0; a fifth of the random cases spell the outermost negation as not_(set_of(selection, conjuncts...)) and are evaluated twice, a quarter replace literal operands by the attribute of a nested single-solution an(...) query; (d) Predicate terms (plain and negated) written inside the block of the query (`with an(T(From(d))) as q: ...`), which add themselves to it. "
         "All variables selected. Non-trivial: both c and not c have at least one satisfying assignment.")
 LEVEL_TEXT = ("Reference-model monitoring plus an oracle-free identity: rows of not_(c) must be the set complement of the rows "
               "of c within the Cartesian product and equal the oracle; not_(not_(c)) must return the rows of c. Bounded "
